@@ -1,0 +1,93 @@
+//go:build verif
+
+package dragonboat
+
+import (
+	"bytes"
+	"io"
+
+	"github.com/lni/dragonboat/v4/config"
+	"github.com/lni/dragonboat/v4/internal/rsm"
+	"github.com/lni/dragonboat/v4/internal/server"
+	"github.com/lni/dragonboat/v4/internal/vfs"
+	pb "github.com/lni/dragonboat/v4/raftpb"
+	sm "github.com/lni/dragonboat/v4/statemachine"
+)
+
+// White-box access for the C14 verification harness (snapshot file format):
+// the real snapshotter.Save and snapshotter.Load around a state machine whose
+// Write and Read calls are chosen by the harness. Compiled only with -tags
+// verif.
+
+// VerifC14 wraps a snapshotter without a LogDB (Save and Load do not use it).
+type VerifC14 struct {
+	s *snapshotter
+}
+
+// NewVerifC14 builds the snapshotter of (1, 1) over fs.
+func NewVerifC14(root func(uint64, uint64) string, fs vfs.IFS) *VerifC14 {
+	return &VerifC14{s: newSnapshotter(1, 1, server.SnapshotDirFunc(root), nil, nil, fs)}
+}
+
+type verifC14SM struct {
+	write    func(io.Writer) error
+	read     func(io.Reader) error
+	nsession int
+	sessions []byte
+}
+
+func (v *verifC14SM) Save(meta rsm.SSMeta,
+	w io.Writer, session []byte, c sm.ISnapshotFileCollection) (bool, error) {
+	if _, err := w.Write(session); err != nil {
+		return false, err
+	}
+	return false, v.write(w)
+}
+
+func (v *verifC14SM) LoadSessions(r io.Reader, ver rsm.SSVersion) error {
+	v.sessions = make([]byte, v.nsession)
+	_, err := io.ReadFull(r, v.sessions)
+	return err
+}
+
+func (v *verifC14SM) Recover(r io.Reader, fs []sm.SnapshotFile) error {
+	return v.read(r)
+}
+
+// Save is snapshotter.Save with the given session bytes and a state machine
+// that issues the Write calls of write; the snapshot is then finalized the way
+// snapshotter.Commit does (SaveSSMetadata, FinalizeSnapshot) minus the LogDB
+// record, so that Load finds it.
+func (v *VerifC14) Save(index uint64, ct config.CompressionType,
+	session []byte, write func(io.Writer) error) (pb.Snapshot, error) {
+	meta := rsm.SSMeta{
+		Index:           index,
+		Term:            1,
+		Type:            pb.RegularStateMachine,
+		Session:         bytes.NewBuffer(session),
+		CompressionType: ct,
+		Membership: pb.Membership{
+			Addresses: map[uint64]string{1: "a1"},
+		},
+	}
+	ss, env, err := v.s.Save(&verifC14SM{write: write}, meta)
+	if err != nil {
+		return ss, err
+	}
+	if err := env.SaveSSMetadata(&ss); err != nil {
+		return ss, err
+	}
+	if err := env.FinalizeSnapshot(&ss); err != nil {
+		return ss, err
+	}
+	return ss, nil
+}
+
+// Load is snapshotter.Load: nsession bytes are consumed by LoadSessions, the
+// rest is handed to read as the state machine's RecoverFromSnapshot reader.
+func (v *VerifC14) Load(ss pb.Snapshot, nsession int,
+	read func(io.Reader) error) ([]byte, error) {
+	m := &verifC14SM{read: read, nsession: nsession}
+	err := v.s.Load(ss, m, m)
+	return m.sessions, err
+}
